@@ -423,3 +423,42 @@ def reporters_stream_for(kind, quick_n, thorough_n):
         keep_failing_files(ctx, res)
         return res
     return stream
+
+
+def verdict_stream_for(name, crate, subcmd, quick_n, thorough_n, flags=None, shards=8, binary=None):
+    """streams whose expectation is a constant (every scenario must end in its 'good' verdict):
+    the harness prints `<tag> <scenario> => <verdict>`; a verdict starting with VIOLATION fails"""
+    def stream(ctx):
+        res = StreamResult(name)
+        os.makedirs(ctx.scratch, exist_ok=True)
+        bindir = ctx.harness(crate, flags=vc.GUARD_FLAGS if flags is None else flags)
+        exe = os.path.join(bindir, binary or ("vharness" if crate == "core" else "v" + crate))
+        n = ctx.scale(quick_n, thorough_n)
+        files, cmds = [], []
+        for s in range(shards):
+            f = os.path.join(ctx.scratch, "%s-%d.txt" % (name, s))
+            cmds.append("%s %s --seed %d --n %d --out %s" % (exe, subcmd, ctx.seed * 1000 + s, n, f)); files.append(f)
+        for rc, out in vc.parallel(cmds, jobs=shards):
+            if rc != 0:
+                raise BuildError("harness %s run failed (rc %s): %s" % (name, rc, out[-2000:]))
+        seen = set()
+        for f in files:
+            with open(f, errors="replace") as fh:
+                for i, line in enumerate(fh, 1):
+                    if line.startswith("#stat "):
+                        _, k, v = line.split()
+                        res.stats[k] = res.stats.get(k, 0) + int(v)
+                        continue
+                    if " => " not in line:
+                        continue
+                    lhs, rhs = line.rstrip("\n").split(" => ", 1)
+                    res.cases += 1
+                    if lhs not in seen:
+                        seen.add(lhs); res.nontrivial += 1
+                    if rhs.startswith("VIOLATION"):
+                        res.oracle_fails.append({"line": i, "case": (lhs + " => " + rhs)[:1500], "file": f})
+                    elif len(res.samples) < 2:
+                        res.samples.append(line.strip()[:400])
+        keep_failing_files(ctx, res)
+        return res
+    return stream
